@@ -265,6 +265,20 @@ Lemma path_secure_as_spec id tg flags chain :
   path_secure_as id tg flags chain = Secure <-> Forall (dir_ok (i_euid id) tg flags) chain.
 Proof. unfold path_secure_as. rewrite dir_owner_effective. apply path_secure_spec. Qed.
 
+(* every site walks its directories whatever is at the file's name (GenPath *_walk): the verdict on the
+   directory chain does not depend on the prior state of the leaf *)
+Lemma walks_always s leaf : walks s leaf = true.
+Proof. unfold walks. destruct s, (o_stat leaf); reflexivity. Qed.
+
+Lemma dir_verdict_walk s leaf id tg chain :
+  dir_verdict s leaf id tg chain = path_secure_as id tg (site_flags s) chain.
+Proof. unfold dir_verdict. rewrite walks_always. reflexivity. Qed.
+
+Theorem dir_verdict_independent s leaf leaf' id tg chain :
+  dir_verdict s leaf id tg chain = dir_verdict s leaf' id tg chain /\
+  (dir_verdict s leaf id tg chain = Secure <-> Forall (dir_ok (i_euid id) tg (site_flags s)) chain).
+Proof. rewrite !dir_verdict_walk. split; [reflexivity|apply path_secure_as_spec]. Qed.
+
 (* ---- key file ---- *)
 Definition key_ok (euid : N) (o : fobs) : Prop :=
   exists s, o_stat o = Some s /\ f_type s = TReg /\ o_symlink o = false /\ f_uid s = euid /\
@@ -311,7 +325,7 @@ Proof.
   destruct (has (f_mode s) oth_rw) eqn:O.
   { split; [discriminate|]. intros [(s' & H & _ & _ & _ & X) _]. inversion H; subst.
     apply rw_mask in X. destruct X; congruence. }
-  rewrite dir_why_none, path_secure_as_spec. fold euid.
+  rewrite dir_why_none, dir_verdict_walk, path_secure_as_spec. fold euid. change (site_flags FKey) with key_flags.
   rewrite (forall_dir_ok_flags euid tg key_flags 0 chain) by (vm_compute; reflexivity).
   split.
   - intros H. split; [|exact H]. exists s. repeat split; try assumption. apply rw_mask. tauto.
@@ -377,12 +391,12 @@ Definition seed_unlinkable (o : fobs) : bool :=
 
 Lemma seed_step_refused force id tg o chain :
   sr_refuse (seed_step force id tg o chain) <> None ->
-  force = false /\ path_secure_as id tg seed_flags chain <> Secure /\
+  force = false /\ dir_verdict FSeed o id tg chain <> Secure /\
   sr_hang (seed_step force id tg o chain) = false /\
   sr_used (seed_step force id tg o chain) = false /\
   sr_removed (seed_step force id tg o chain) = false.
 Proof.
-  unfold seed_step. destruct (path_secure_as id tg seed_flags chain) as [|i r], force;
+  unfold seed_step. destruct (dir_verdict FSeed o id tg chain) as [|i r], force;
   destruct (seed_blocks o); destruct (seed_read id o) as [bad used]; cbn; intros H; try congruence;
   repeat split; congruence.
 Qed.
@@ -391,7 +405,7 @@ Lemma seed_step_hang force id tg o chain :
   sr_hang (seed_step force id tg o chain) = true <->
   sr_refuse (seed_step force id tg o chain) = None /\ seed_blocks o = true.
 Proof.
-  unfold seed_step. destruct (path_secure_as id tg seed_flags chain) as [|i r], force;
+  unfold seed_step. destruct (dir_verdict FSeed o id tg chain) as [|i r], force;
   destruct (seed_blocks o); destruct (seed_read id o) as [bad used]; cbn; split; intros H;
   try discriminate; try tauto; try (destruct H; discriminate).
 Qed.
@@ -399,11 +413,11 @@ Qed.
 Lemma seed_step_run force id tg o chain :
   sr_refuse (seed_step force id tg o chain) = None ->
   sr_hang (seed_step force id tg o chain) = false ->
-  (force = true \/ path_secure_as id tg seed_flags chain = Secure) /\
+  (force = true \/ dir_verdict FSeed o id tg chain = Secure) /\
   sr_used (seed_step force id tg o chain) = snd (seed_read id o) /\
   sr_removed (seed_step force id tg o chain) = fst (seed_read id o) && seed_unlinkable o.
 Proof.
-  unfold seed_step, seed_unlinkable. destruct (path_secure_as id tg seed_flags chain) as [|i r], force;
+  unfold seed_step, seed_unlinkable. destruct (dir_verdict FSeed o id tg chain) as [|i r], force;
   destruct (seed_blocks o); destruct (seed_read id o) as [bad used]; cbn; intros H H';
   try discriminate; repeat split; tauto.
 Qed.
@@ -450,12 +464,12 @@ Theorem seed_spec force id tg o chain :
   (sr_hang r = true -> sr_used r = false /\ sr_removed r = false).
 Proof.
   cbv zeta.
-  assert (F : Forall (dir_ok (i_euid id) tg 0) chain <-> path_secure_as id tg seed_flags chain = Secure).
-  { rewrite path_secure_as_spec. apply forall_dir_ok_flags. vm_compute. reflexivity. }
+  assert (F : Forall (dir_ok (i_euid id) tg 0) chain <-> dir_verdict FSeed o id tg chain = Secure).
+  { rewrite dir_verdict_walk, path_secure_as_spec. apply forall_dir_ok_flags. vm_compute. reflexivity. }
   assert (HU : sr_hang (seed_step force id tg o chain) = true ->
                sr_used (seed_step force id tg o chain) = false /\
                sr_removed (seed_step force id tg o chain) = false).
-  { unfold seed_step. destruct (path_secure_as id tg seed_flags chain) as [|i r], force;
+  { unfold seed_step. destruct (dir_verdict FSeed o id tg chain) as [|i r], force;
     destruct (seed_blocks o); destruct (seed_read id o) as [bad used]; cbn; intros H;
     try discriminate; tauto. }
   split; [|split; [|split; [|split; [|split; [|split]]]]].
@@ -482,7 +496,7 @@ Proof.
     + rewrite R2. destruct (fst (seed_read id o)) eqn:E; [|reflexivity].
       apply seed_read_bad in E. tauto.
   - intros NF. subst force. rewrite F. unfold seed_step.
-    destruct (path_secure_as id tg seed_flags chain) as [|i r]; destruct (seed_blocks o);
+    destruct (dir_verdict FSeed o id tg chain) as [|i r]; destruct (seed_blocks o);
     destruct (seed_read id o) as [bad used]; cbn; split; congruence.
   - intros R. apply seed_step_refused in R. tauto.
   - rewrite seed_step_hang, seed_blocks_spec. tauto.
@@ -502,8 +516,8 @@ Theorem logfile_spec id tg o chain :
 Proof.
   set (euid := i_euid id).
   assert (F : Forall (fun d => owner_ok euid d /\ ow_ok d) chain <->
-              path_secure_as id tg log_flags chain = Secure).
-  { rewrite path_secure_as_spec, !Forall_forall. fold euid. split; intros H d Hd; specialize (H d Hd).
+              dir_verdict FLog o id tg chain = Secure).
+  { rewrite dir_verdict_walk, path_secure_as_spec, !Forall_forall. fold euid. split; intros H d Hd; specialize (H d Hd).
     - apply dir_ok_ignore; [vm_compute; reflexivity|exact H].
     - apply dir_ok_ignore in H; [exact H|vm_compute; reflexivity]. }
   unfold logfile_check, log_ok. rewrite log_owner_effective. fold euid. destruct (o_symlink o) eqn:L; cbn [andb negb].
@@ -822,13 +836,13 @@ Proof.
       unfold seed_of in H; rewrite NF in H;
       apply (proj1 (proj2 (proj2 (proj2 (seed_spec false _ _ _ _)))) eq_refl) in H; exact H end. }
   split.
-  { match goal with H : sock_check _ _ _ _ = None |- _ => unfold sock_check in H;
-      destruct (dir_why (path_secure_as (c_id c) (c_tg c) sock_flags (c_sockdir c))) eqn:E; [discriminate|];
-      apply dir_why_none, path_secure_as_spec in E;
+  { match goal with H : sock_check _ _ _ _ _ = None |- _ => unfold sock_check in H;
+      destruct (dir_why (dir_verdict FSock (c_sock c) (c_id c) (c_tg c) (c_sockdir c))) eqn:E; [discriminate|];
+      apply dir_why_none in E; rewrite dir_verdict_walk in E; apply path_secure_as_spec in E;
       apply (forall_dir_ok_flags _ _ sock_flags 0); [vm_compute; reflexivity|exact E] end. }
   split.
-  { match goal with H : pid_check _ _ _ _ = None |- _ => unfold pid_check in H;
-      apply dir_why_none, path_secure_as_spec in H;
+  { match goal with H : pid_check _ _ _ _ _ = None |- _ => unfold pid_check in H;
+      apply dir_why_none in H; rewrite dir_verdict_walk in H; apply path_secure_as_spec in H;
       apply (forall_dir_ok_flags _ _ pid_flags 0); [vm_compute; reflexivity|exact H] end. }
   split.
   { intros FG. match goal with H : (if c_fg c then None else tag SLog (logfile_check _ _ _ _ _)) = None |- _ =>
